@@ -257,10 +257,13 @@ PROPS = {
                       "generator cover that, the rate-1 oracle skips it); DESIGN's 'reproduces cubics' is false of this kernel and is "
                       "proved false (exact to degree 2); 'seek lands within one frame after the window refilled' is proved as: "
                       "landing index + window = last four pushes (the frame at the landing position is pushed twice, a one-frame "
-                      "repeat, see notes); out-of-domain inputs fault in model and code alike (KNOWN-FINDING lines, C01 material)",
+                      "repeat, see notes); ANY slice (clamped to the data; inverted = empty), any start position in either direction and "
+                      "empty sounds are in the domain since the repairs (C04_never_outside_slice, C04_num_frames_clamped, "
+                      "C04_transport_new_any, C04_any_sound_starts: play/into_sound and the audio thread never fault on them); suite "
+                      "static_ood keeps the loop regions outside `ValidLoop` (empty / inverted: dropped by kira; end past the sound)",
         "assumptions": [
-            "loop region valid (ls < le <= n), slice inside the data, start position < length when reversed - kira enforces none of "
-            "these: violating them hangs or panics (known findings)",
+            "loop region in force valid (ls < le <= n) or absent for the invariants (kira drops empty / inverted regions; a region "
+            "reaching past the end is followed bit-for-bit by the twin); no hypothesis on the slice, the start position or the direction",
             "finite arguments; usize arithmetic modelled on unbounded naturals (positions near usize::MAX are outside the model)",
             "rate-1 identity: volume 0 dB, centre panning, no fade, immediate start (the gain stage is covered by C19/C06 and the twin)",
         ],
@@ -356,7 +359,9 @@ PROPS = {
                    'one-pole) in the correspondence; long-run finiteness of the full reverb is proved for fixed parameters only '
                    '(C13_reverb_bounded_partial) and exercised by the finite_output oracle otherwise',
      'assumptions': ['parameters at rest (not tweening, not modulator-linked) for linearity / chunk-freedom / dry identity',
-                     'distortion drive > -60 dB; compressor ratio != 0 (outside: known findings dist-silent-drive-nan, comp-ratio-zero-nan)',
+                     'compressor: ANY ratio (a ratio of exactly 0 has slope 0, like ratio 1, since the repair of comp-ratio-zero-nan: '
+                     'Compressor.slope); distortion drive > -60 dB for the divisor theorem (a silent drive leaves the signal undistorted since '
+                     'the repair of dist-silent-drive-nan)',
                      'dt > 0; relative cutoff below Nyquist for the positivity of g (at the clamp edge tan(pi/2) is 1.6e16 in floating point)',
                      'delay line of at least one frame (delay_time >= 1/fs): the excluded point panics in kira (known finding)',
                      'process slices no longer than the internal buffer size (as the mixer guarantees)',
@@ -381,11 +386,11 @@ PROPS = {
      'level_note': 'first half of C14 (delay/reverb are the second half); theorems over ideal real arithmetic on the steady-state orbits (fixed point, '
                    'period-2 orbit, sinusoidal orbit): convergence of the SVF to these orbits from other states (asymptotic stability) and the response '
                    'at frequencies other than DC / corner / Nyquist are measured by the oracles dc_gain_*, nyquist_gain, corner_gain on the real code, '
-                   'not proved; shelf mid-point gains not stated || theorems over ideal real arithmetic (the f64 rounding of delay*fs at exact frame '
-                   'boundaries is a known finding); conformance of the model to the cited Freeverb code is by the stated equalities and by inspection',
+                   'not proved; shelf mid-point gains not stated || theorems over ideal real arithmetic (the delay line length is exact: kira computes '
+                   'it in integers, ns*rate/10^9, since the repair of delay-length-float-floor - C14_delay_line_length); conformance of the model to the cited Freeverb code is by the stated equalities and by inspection',
      'assumptions': ['parameters at rest (not tweening, not modulator-linked)',
                      'dt > 0 and relative cutoff below Nyquist for the corner / uniqueness theorems',
-                     'compressor ratio != 0, distortion drive > -60 dB (outside: known findings)',
+                     'compressor: any ratio (0 counts as no change of the dynamics, repaired); distortion drive > -60 dB for the clip formulas',
                      'stagnant feedback / mix parameters for the echo theorem',
                      '0 <= feedback < 1 and 0 <= damping <= 1 for the decay bound']},
 }
